@@ -418,3 +418,36 @@ Proof.
   - intros i c Hc. assert (E : length (heap ex_world) = 6) by reflexivity. rewrite E.
     destruct i as [|[|[|i]]]; vm_compute in Hc; intuition lia.
 Qed.
+(* ---------------------------------------------------------------- keyword overrides land in fresh cells *)
+Lemma nth_lupd_same {A} (l : list A) j v d : j < length l -> nth j (lupd l j v) d = v.
+Proof. intros L. rewrite nth_lupd, Nat.eqb_refl. apply Nat.ltb_lt in L. rewrite L. reflexivity. Qed.
+
+(* setattr(obj_copy, name, value): the slot is rebound to a cell that did not exist before - it
+   is the value that is stored, never the buffer that was passed *)
+Lemma override_step_fresh u y j v : y < length (co u) -> j < length (attrs (cget u y)) ->
+  let u' := apply_kw u y (KwAttr j v) in
+  nth j (attrs (cget u' y)) 0 = length (heap u) /\
+  hget u' (length (heap u)) = v /\
+  (Bounded u -> forall i, ~ In (length (heap u)) (lown u i)).
+Proof.
+  intros Ly Lj u'. unfold u', apply_kw, cget. simpl. rewrite cget_lupd, Nat.eqb_refl.
+  apply Nat.ltb_lt in Ly. rewrite Ly. simpl. repeat split.
+  - apply nth_lupd_same. exact Lj.
+  - unfold hget. simpl. rewrite app_nth2 by lia. rewrite Nat.sub_diag. reflexivity.
+  - intros B i Hi. apply B in Hi. lia.
+Qed.
+
+(* after the whole copy: no attribute cell of the clone - overridden or not - can be reached from
+   an original object *)
+Theorem override_cells_separated s x kws : WF s -> live (fs s) x = true ->
+  let s' := copy s x kws in let y := length (fs s) + x in
+  forall c, In c (attrs (cget s' y)) ->
+  forall i, i < length (fs s) -> ~ In c (lown s' i).
+Proof.
+  intros HW Hx s' y c Hc i Li Hi.
+  apply (copy_separated s x kws HW Hx i y c Li); [unfold y; lia | exact Hi |].
+  apply live_lown; [|apply owned_cases; auto].
+  unfold s'. rewrite fs_copy. unfold is_junk, is_k, y.
+  rewrite (kd_t_clone (fs s) x (proj1 HW) Hx x (S_x (fs s) x (proj1 HW))).
+  pose proof (x_nonjunk (fs s) x Hx). destruct (kd (fs s) x); auto; congruence.
+Qed.
